@@ -34,6 +34,9 @@ __all__ = ["handshake_response", "handshake", "SUPPORTED_REDIRECT_STATUSES"]
 # websocket supported version.
 VERSION = 13
 
+# upper bound for the part of an HTTP error body that is read for the exception
+MAX_ERROR_BODY_SIZE = 16384
+
 SUPPORTED_REDIRECT_STATUSES = (
     HTTPStatus.MOVED_PERMANENTLY,
     HTTPStatus.FOUND,
@@ -142,10 +145,10 @@ def _get_resp_headers(sock, success_statuses: tuple = SUCCESS_STATUSES) -> tuple
     status, resp_headers, status_message = read_headers(sock)
     if status not in success_statuses:
         content_len = resp_headers.get("content-length")
-        if content_len:
-            response_body = sock.recv(
-                int(content_len)
-            )  # read the body of the HTTP error message response and include it in the exception
+        if content_len and content_len.isdigit():
+            # read (at most a bounded part of) the body of the HTTP error message
+            # response and include it in the exception; the declared length is not trusted
+            response_body = sock.recv(min(int(content_len), MAX_ERROR_BODY_SIZE))
         else:
             response_body = None
         raise WebSocketBadStatusException(
